@@ -13,8 +13,9 @@ Fixpoint fseq (l : list fmt) (last : fmt) : fmt :=
 Definition pkt (tag : Z) (body : fmt) : fmt := FSeq (FConst [192 + tag]) (FNewLen body).
 Definition versioned (ver : Z) (body : fmt) : fmt := FSeq (FConst [ver]) body.
 
-(* signature subpacket: length (counts the type octet), type octet (critical bit included), body *)
-Definition f_subpacket : fmt := FNewLen (FSeq (FBE 1) FRest).
+(* signature / user attribute subpacket: length (counts the type octet; the SUBPACKET length rule: a first octet 192..254
+   opens a two-octet length, there is no partial form), type octet (critical bit included), body *)
+Definition f_subpacket : fmt := FSubLen (FSeq (FBE 1) FRest).
 Definition f_subarea : fmt := FLen 2 (FMany f_subpacket).
 
 (* tag 1, v3: key id, pk algorithm, then algorithm-specific: RSA one MPI; ECDH MPI + one-octet-length wrapped key *)
